@@ -52,14 +52,16 @@ fn generate_track(track: &Track) -> Vec<u8> {
     let mut res: Vec<u8> = vec![];
     let mut timepos = 0;
     for e in &track.events {
+        // an event issued before tick 0 (negative timing) is written at tick 0
+        let etime = if e.time < 0 { 0 } else { e.time };
         match e.etype {
             EventType::NoteOn => {
                 let note_no = e.v1;
                 // note_len = e.v2 // not use
                 let note_vel = e.v3;
                 // note on
-                array_push_delta(&mut res, e.time - timepos);
-                timepos = e.time;
+                array_push_delta(&mut res, etime - timepos);
+                timepos = etime;
                 res.push(0x90 + e.channel as u8);
                 res.push(to_data_byte(note_no)); // note_no
                 res.push(to_data_byte(note_vel)); // velocity
@@ -68,28 +70,28 @@ fn generate_track(track: &Track) -> Vec<u8> {
                 let note_no = e.v1;
                 // note_len = e.v2 // not use
                 let note_vel = e.v3;
-                array_push_delta(&mut res, e.time - timepos);
-                timepos = e.time;
+                array_push_delta(&mut res, etime - timepos);
+                timepos = etime;
                 res.push(0x80 + e.channel as u8);
                 res.push(to_data_byte(note_no));
                 res.push(to_data_byte(note_vel));
             },
             EventType::Voice => {
-                array_push_delta(&mut res, e.time - timepos);
-                timepos = e.time;
+                array_push_delta(&mut res, etime - timepos);
+                timepos = etime;
                 res.push(0xC0 + e.channel as u8);
                 res.push(to_data_byte(e.v1));
             },
             EventType::ControllChange => {
-                array_push_delta(&mut res, e.time - timepos);
-                timepos = e.time;
+                array_push_delta(&mut res, etime - timepos);
+                timepos = etime;
                 res.push(0xB0 + e.channel as u8);
                 res.push(to_data_byte(e.v1));
                 res.push(to_data_byte(e.v2));
             },
             EventType::Meta => {
-                array_push_delta(&mut res, e.time - timepos);
-                timepos = e.time;
+                array_push_delta(&mut res, etime - timepos);
+                timepos = etime;
                 res.push(e.v1 as u8);
                 res.push(e.v2 as u8);
                 res.push(e.v3 as u8);
@@ -101,9 +103,9 @@ fn generate_track(track: &Track) -> Vec<u8> {
             EventType::SysEx => { // SysEx の書き込み処理
                 let data = e.data.clone().unwrap();
                 if data.len() == 0 { continue; }
-                let delta_time = e.time - timepos;
+                let delta_time = etime - timepos;
                 array_push_delta(&mut res, delta_time);
-                timepos = e.time;
+                timepos = etime;
                 let size = data.len() - 1;
                 // 1st byte must be 0xF0
                 res.push(0xF0); // SysEx Event
@@ -120,8 +122,8 @@ fn generate_track(track: &Track) -> Vec<u8> {
                 let msb = ((v >> 7) & 0x7F) as u8;
                 let lsb = ((v >> 0) & 0x7F) as u8;
                 // println!("PB={}(0x{:02x}{:02x})", v, msb, lsb);
-                array_push_delta(&mut res, e.time - timepos);
-                timepos = e.time;
+                array_push_delta(&mut res, etime - timepos);
+                timepos = etime;
                 res.push(0xE0 + e.channel as u8);
                 res.push(lsb);
                 res.push(msb);
@@ -131,8 +133,8 @@ fn generate_track(track: &Track) -> Vec<u8> {
                 let range = e.v1;
                 let range = if range >= 0 && range <= 24 { range as u8 } else { 0 };
                 // RPN MSB
-                array_push_delta(&mut res, e.time - timepos);
-                timepos = e.time;
+                array_push_delta(&mut res, etime - timepos);
+                timepos = etime;
                 res.push(0xB0 + e.channel as u8);
                 res.push(MIDI_RPN_MSB);
                 res.push(0);
@@ -150,9 +152,9 @@ fn generate_track(track: &Track) -> Vec<u8> {
             EventType::DirectSMF => {
                 let data = e.data.clone().unwrap();
                 if data.len() == 0 { continue; }
-                let delta_time = e.time - timepos;
+                let delta_time = etime - timepos;
                 array_push_delta(&mut res, delta_time);
-                timepos = e.time;
+                timepos = etime;
                 // write data
                 for b in data.iter() {
                     res.push(*b);
